@@ -335,7 +335,7 @@ def check_registered(i, bad, sides, dead, state):
         if got != want:
             diff = sorted(set(got.items()) ^ set(want.items()))
             anom_fds = set(sides[x].o[c]["fd"] for c in sides[x].anom if c in sides[x].o)
-            fl = {KEY_F14} if diff and all(fd in anom_fds and ev == 0 for fd, ev in diff) else set()
+            fl = f14(bool(diff) and all(fd in anom_fds and ev == 0 for fd, ev in diff))
             bad.append((i, "%s: watches %s, the channels subscribe to %s (descriptor:conditions)" %
                         (name, sorted(got.items()), sorted(want.items())), fl))
 
@@ -347,6 +347,14 @@ def expected_status(guards):
     if not any(guards):
         return "rejected"
     return "MIXED"
+
+
+F14_REPAIRED = [True]    # set by run() from the generated facts: the label of the fixed finding F-14 is only used when the
+                         # source really lacks the repair (otherwise an unrelated change tripping the same assert is mislabelled)
+
+
+def f14(cond=True):
+    return {KEY_F14} if cond and not F14_REPAIRED[0] else set()
 
 
 def oracle(case, lines, crash=None, ri=True, events=None):
@@ -394,7 +402,7 @@ def oracle(case, lines, crash=None, ri=True, events=None):
                 bad.append((i, "%s: removed/unregistered channel %d reported (revents %d)" % (name, c, r), set()))
             elif v["ev"] == 0:
                 bad.append((i, "%s: channel %d has no interest enabled but is reported (revents %d) and called" % (name, c, r),
-                            {KEY_F14} if c in sp.anom else set()))
+                            f14(c in sp.anom)))
             elif c not in exp or exp[c] != r:
                 bad.append((i, "%s: channel %d reported with revents %d, descriptor condition %d & (events %d | ERR|HUP|NVAL) = %d"
                             % (name, c, r, ready.get(v["fd"], 0), v["ev"], exp.get(c, 0)), set()))
@@ -422,11 +430,11 @@ def oracle(case, lines, crash=None, ri=True, events=None):
                 # F-14 (b): PollPoller::removeChannel's assert on a channel registered with an empty interest
                 if "removeChannel" in summ and "pfd.fd == -channel->fd()-1" in summ and not dead["P"]:
                     if w[0] == "RM" and int(w[1]) in spP.anom:
-                        fl.add(KEY_F14)
+                        fl |= f14()
                     if w[0] == "LOOP" and any(sc[3] == "RM" and (sc[4] in spP.anom or any(s2[4] == sc[4] and s2[3] in ("DA", "DR", "DW") and
                                                                                (spP.o.get(sc[4]) is None or not spP.o[sc[4]]["reg"]) for s2 in scripts))
                                               for sc in scripts):
-                        fl.add(KEY_F14)
+                        fl |= f14()
                 bad.append((i, msg, fl))
             else:
                 bad.append((i, "missing output line", set()))
@@ -643,7 +651,7 @@ def completeness(i, bad, pre, exps, res, trunc_run, ev):
             diff = set(c for c, _ in set(aE) ^ set(aP))
             anom = pre["E"][1] | pre["P"][1]
             mapE = pre["E"][0]
-            fl = {KEY_F14} if diff and all(c in anom and c in mapE and mapE[c][1] == 0 for c in diff) else set()
+            fl = f14(bool(diff) and all(c in anom and c in mapE and mapE[c][1] == 0 for c in diff))
             bad.append((i, "back-ends differ: epoll %s poll %s" % (aE, aP), fl))
     return trunc_run
 
@@ -1049,6 +1057,8 @@ def run(chk, replay=None):
     pr = chk.prove()
     ri = gen_fact("PollPoller_remove_resets_index", "false") == "true"
     grow = gen_fact("EPollPoller_grow_factor", "?")
+    F14_REPAIRED[0] = (gen_fact("EPollPoller_add_skips_empty_interest", "false") == "true" and
+                       gen_fact("PollPoller_new_entry_negates_empty", "false") == "true")
     facts = {}
     for name in ("EPollPoller_poll_grow_guard", "EPollPoller_poll_new_size", "Channel_handleEventWithGuard_calls", "Channel_handleEvent_runs",
                  "Channel_handleEvent_guard_is_tie_lock", "EventLoop_loop_dispatches_snapshot", "EventLoop_handleRead_reads_wakeupfd",
@@ -1220,7 +1230,7 @@ def run(chk, replay=None):
             li, lm, crash = run_one(small)
             fs = oracle(small, li, crash, ri) if li else []
             msg2 = fs[0][1] if fs else msg
-            tag = ("matches the signature of the FIXED finding %s -- the repair is missing or broken in this tree" % ",".join(flags)) if flags else "no documented finding pattern"
+            tag = ("matches the signature of the FIXED finding %s, and the generated facts say its repair is missing from this tree" % ",".join(flags)) if flags else "no documented finding pattern"
             p = chk.write_replay("oracle_%s.case" % c.cid, "# %s\n# %s\n" % (msg2.replace("\n", " "), tag) + small.text())
             chk.violation(p, "C09 fails on the implementation: %s [%s; %d failing cases in this group]" % (msg2, tag, len(lst)))
     if corr_bad or not pr["ok"]:
